@@ -51,9 +51,11 @@ func (m *Mutex) Unlock() {
 	m.real.Unlock()
 }
 
-// RWMutex: see Mutex. Writer preference of the real RWMutex is not modelled (a reader is enabled
-// whenever no writer holds the lock); the real RLock could then block behind a *waiting* real writer,
-// but under the scheduler no thread ever waits inside the real lock, so it cannot.
+// RWMutex: see Mutex. Writer preference of the real RWMutex is modelled: Lock with active readers first
+// announces the writer (st.Pending, which disables every later RLock exactly as the real readerCount
+// going negative does) and then waits, at a second point, until the active readers have left. A
+// recursive RLock behind a pending writer is therefore a deadlock under the scheduler as it is in reality.
+// Under the scheduler no thread ever waits inside the real lock.
 type RWMutex struct {
 	real sync.RWMutex
 	st   vrt.LockState
@@ -63,9 +65,20 @@ type RWMutex struct {
 func (m *RWMutex) Lock() {
 	if s := vrt.Active(); s != nil {
 		s.Point(vrt.OpLock, vrt.CallerLabel(2)+":Lock", &m.st)
+		if !s.Aborting() && m.readers() > 0 {
+			m.st.Pending = true
+			s.Point(vrt.OpLockWait, vrt.CallerLabel(2)+":Lock(wait-readers)", &m.st)
+		}
 	}
 	m.real.Lock()
+	m.st.Pending = false
 	m.st.Writer = true
+}
+
+func (m *RWMutex) readers() int {
+	m.rmu.Lock()
+	defer m.rmu.Unlock()
+	return m.st.Readers
 }
 
 func (m *RWMutex) TryLock() bool {
@@ -97,6 +110,9 @@ func (m *RWMutex) RLock() {
 func (m *RWMutex) TryRLock() bool {
 	if s := vrt.Active(); s != nil {
 		s.Point(vrt.OpAtomic, vrt.CallerLabel(2)+":TryRLock", nil)
+		if m.st.Pending {
+			return false // the real TryRLock fails behind a pending writer
+		}
 	}
 	if m.real.TryRLock() {
 		m.rmu.Lock()
